@@ -141,7 +141,7 @@ func valString(key string, v []byte) string {
 			for i := 0; i < n && 4+8*i+8 <= len(v); i++ {
 				xs = append(xs, fmt.Sprint(int(v[4+8*i])|int(v[5+8*i])<<8))
 			}
-			return "[" + strings.Join(xs, " ") + "]"
+			return "[" + strings.Join(xs, ",") + "]"
 		}
 	}
 	return fmt.Sprintf("<%dB>", len(v))
